@@ -25,6 +25,7 @@ with the source — any document with distinct paragraph ids has such an `lh`.
 -/
 import WpModel.Lemmas.ColGeo
 import WpModel.Lemmas.ColGeoStrict
+import WpModel.Lemmas.ColGeoFirst
 import WpModel.Lemmas.ColGeoPage
 
 namespace Wp.C03GeoCol
@@ -384,5 +385,35 @@ example : PMC.DecoOk exSpan.root ∧ LhOk (fun _ => 10) exSpan.root := by
   · simp only [exSpan, exSt, PMC.DecoOk, PMC.DecoOkList, PStyle.DecoOk]
     decide +kernel
   · simp [exSpan, LhOk, LhOkList]
+
+/-! ### a container that is not the first content of its page: no exemption at all -/
+
+/-- **A container laid out with `page_is_empty = False`** (something was placed on the page before it): every line
+of every column box of the returned fragment — the first group included — ends above `pageBottom − bs`;
+`afterSpan lh kids true` marks none of them exempt (`afterSpan_not_exempt`).  With `container_after_span_fits` this
+is the whole of the oracle's rule "the first line of a column may cross the page bottom only if nothing was placed
+on the page before its group". -/
+theorem container_not_first_fits (lh : Nat → Rat) (id : Nat) (st : PStyle) (cs : ColSpec) (flags : List Bool)
+    (kids : List ColBox) (hd : PMC.DecoOk (.columns id st cs flags kids))
+    (hl : LhOk lh (.columns id st cs flags kids))
+    (c : CCtx) (idx : Nat) (y bs : Rat) (skip : Option Resume) (cb : Bool) (adjL : List Rat) (f : CFrag)
+    (hf : (PMC.layoutBox c (.columns id st cs flags kids) idx y bs skip cb false adjL).frag = some f) :
+    ∀ l ∈ PMC.afterSpan lh f.kids true, l.exempt = true ∨ c.overflowsPage bs (l.y + l.lineH) = false :=
+  PMC.container_not_first_fits lh id st cs flags kids hd hl c idx y bs skip cb adjL f hf
+
+/-- Non-vacuity: a 2-line paragraph, then a container (`margin-top: 5px`) on 40px pages: on page 1 the container
+starts at y = 25 with `page_is_empty = False`; its two columns hold one line each, bottom 35, not exempt. -/
+def exFirst : CDoc :=
+  { pageH := 40, rootLtr := true,
+    root := .block 9 { exSt with isRoot := true } [.block 8 exSt
+      [.para 1 2 10 exSt,
+       .columns 4 { exSt with mt := 5 } { count := 2, balance := true, ltr := true, width := 192 } [false]
+         [.para 2 6 10 exSt]]] }
+
+example : (match paginateCol exFirst 30 with
+    | .ok ps => (ps.take 1).map (fun (p : CPage) =>
+        ((p.root.kids.flatMap CFrag.kids).flatMap fun (f : CFrag) => PMC.afterSpan (fun _ => 10) f.kids true).map
+          fun (l : PlacedLine) => (l.para, l.line, l.y + l.lineH, l.exempt))
+    | _ => []) = [[(2, 0, 35, false), (2, 1, 35, false)]] := by decide +kernel
 
 end Wp.C03GeoCol
